@@ -288,3 +288,26 @@ func vh_cookie_ack() {
 	}
 	vassert(len(c.net.Sent) == 0, "a listener in cookie mode sends nothing in response to an ACK")
 }
+
+// C07: arbitrary bytes handed to a TCP endpoint (first view >= 20 bytes, as the NIC guarantees)
+func vh_tcp_arbitrary() {
+	c := vhEP(1<<16, 1<<16)
+	c.e.rcv = newReceiver(c.e, 0, 1<<16, 0)
+	c.e.snd = newSender(c.e, 0, 0, 1<<16, 1460, 0)
+	n := 20 + vnChoice("extra", vparam("tcpextra", 5))
+	b := vnBytes("seg", n)
+	var vv buffer.VectorisedView
+	if n > 22 && vnBool("split") {
+		vv = buffer.NewVectorisedView(n, []buffer.View{buffer.View(b[:22]), buffer.View(b[22:])})
+	} else {
+		vv = buffer.View(b).ToVectorisedView()
+	}
+	c.e.HandlePacket(&c.e.route, c.e.id, vv)
+	if !c.e.segmentQueue.empty() {
+		s := c.e.segmentQueue.dequeue()
+		vassert(s.data.Size() <= n-20 && len(s.options) <= 40, "a queued segment's payload and options lie inside the packet")
+		vreach("queued")
+	} else {
+		vreach("dropped")
+	}
+}
